@@ -24,10 +24,13 @@ Fixpoint add_fsel (key : string) (is_list nonnull : bool) (sub : list fsel) (acc
   | FS k l n s :: r => if String.eqb k key then FS k l n (s ++ sub) :: r else FS k l n s :: add_fsel key is_list nonnull sub r
   end.
 
+(* the entries of one level are merged by response key first, and only then each merged
+   sub-selection in turn (fieldSet.Add recurses into one set per key) *)
 Fixpoint merge_fsels (fuel : nat) (l : list fsel) : list fsel :=
   match fuel with
   | O => l
-  | S f => fold_left (fun acc x => match x with FS k li nn sub => add_fsel k li nn (merge_fsels f sub) acc end) l []
+  | S f => map (fun x => match x with FS k li nn sub => FS k li nn (merge_fsels f sub) end)
+               (fold_left (fun acc x => match x with FS k li nn sub => add_fsel k li nn sub acc end) l [])
   end.
 
 Fixpoint flat_sel (fuel : nat) (sh : fshape) (ptype : string) (s : sel) {struct fuel} : list fsel :=
